@@ -1,0 +1,6 @@
+//go:build !verif
+
+package smtp
+
+// verifPoint is a no-op unless the package is built with -tags verif.
+func verifPoint(string) {}
